@@ -27,6 +27,9 @@ for sid in ids:
         if r.returncode != 0:
             entry["outcome"] = "patch-does-not-apply"
             entry["detail"] = r.stderr[-300:]
+        elif subprocess.run(["/venv/bin/python", "-c", "import myst_parser.parsers.docutils_, myst_parser.parsers.sphinx_, myst_parser.mocking, myst_parser.inventory, myst_parser.sphinx_ext.main, myst_parser.cli"],
+                            env={**os.environ, "PYTHONPATH": dst}, capture_output=True).returncode != 0:
+            entry["outcome"] = "patch-breaks-import"  # a re-ported patch that no longer compiles is a harness problem, not a detection
         else:
             p = subprocess.run([os.path.join(HERE, "vcheck"), prop, "--tier", tier, "--no-evidence"], env={**os.environ, "VERIF_REPO": dst}, capture_output=True, text=True)
             viol = [l.split("#", 1)[1].strip().split(":", 1)[0] if "#" in l else l for l in p.stdout.splitlines() if l.startswith("VIOLATION")]
